@@ -28,6 +28,13 @@ NoDflt == [k |-> "none"]
 Unset == [k |-> "unset"]
 \* the fixed second file of a two-file program (inc.frugal)
 IncStructs == <<[kind |-> "struct", name |-> "inc.Ext", fields |-> <<[id |-> 1, req |-> "default", t |-> B("i32"), name |-> "a", dflt |-> NoDflt]>>]>>
+\* the fixed files of a tree of includes (IDL!AddTree): both L and Rt refer to "common.Item" / "common.Num", which are different
+\* declarations - the ones of a/common.frugal for left.frugal, the ones of b/common.frugal for right.frugal
+Fd(id, t, n) == [id |-> id, req |-> "default", t |-> t, name |-> n, dflt |-> NoDflt]
+TreeStructs == <<[kind |-> "struct", name |-> "left.L", fields |-> <<Fd(1, R("a/common.Item"), "it"), Fd(2, B("i64"), "n"), Fd(3, [k |-> "list", v |-> R("a/common.Item")], "its")>>],
+                 [kind |-> "struct", name |-> "right.Rt", fields |-> <<Fd(1, R("b/common.Item"), "it"), Fd(2, B("i32"), "n")>>],
+                 [kind |-> "struct", name |-> "a/common.Item", fields |-> <<Fd(1, B("i64"), "id"), Fd(2, B("double"), "w")>>],
+                 [kind |-> "struct", name |-> "b/common.Item", fields |-> <<Fd(1, B("i32"), "id"), Fd(2, B("i16"), "w")>>]>>
 IncEnums == <<[name |-> "inc.ExtE", numbered |-> <<[name |-> "P", value |-> 0], [name |-> "Q", value |-> 1]>>]>>
 
 \* ---- args / result structs of the service methods (compiler/generator/base.go) ----
@@ -41,7 +48,7 @@ ResultOf(sv, m) ==
 Synth(P) == LET per(sv) == LET ms == sv.methods IN
                            FoldLeft(LAMBDA acc, m : acc \o <<ArgsOf(sv, m)>> \o (IF m.oneway THEN <<>> ELSE <<ResultOf(sv, m)>>), <<>>, ms)
             IN FoldLeft(LAMBDA acc, sv : acc \o per(sv), <<>>, P.services)
-AllStructs(P) == P.structs \o IncStructs \o Synth(P)
+AllStructs(P) == P.structs \o IncStructs \o TreeStructs \o Synth(P)
 AllEnums(P) == P.enums \o IncEnums
 StructNamed(P, n) == LET ss == AllStructs(P) IN ss[CHOOSE i \in Idx(ss) : ss[i].name = n]
 IsStructName(P, n) == \E i \in Idx(AllStructs(P)) : AllStructs(P)[i].name = n
